@@ -744,3 +744,36 @@ package genql
 //@   ensures scalar[C09]: !typeis(data, []any) && !typeis(data, map[string]any) ==> err != nil && result == nil
 //@ func Distinct
 //@   ensures not-an-array[C09]: !typeis(data, []any) ==> err != nil && result == nil
+
+// C02: CASE WHEN: the arms are tried in order and the first one whose condition is true decides. The loop invariant is
+// checked on every path that goes round the loop: the condition evaluated in that iteration was not true (an arm whose
+// condition is true ends the search).
+//@ func CaseExpr
+//@   loop 0 ascending-range arms[C02]: expr.Whens
+//@   loop 0 invariant an-arm-whose-condition-is-true-ends-the-search[C02]: !called(Expr) || callresult(Expr, 0, 1) != any(true)
+//@   at-call Expr:when.Cond assert condition-of-this-arm[C02]: arg2 == rangevalue.Cond
+//@   at-call Expr:when.Val assert value-of-the-arm-whose-condition-is-true[C02]: arg2 == when.Val && callresult(Expr, 0, 1) == any(true)
+
+// every row / item is visited: these loops are left only when their range is exhausted, or by a return
+//@ func ExecDistinct
+//@   loop 0 exhaustive every-row-is-considered[C06]: current
+//@ func (*Query).exec
+//@   loop 0 exhaustive every-source-row-is-filtered[C01]: query.from
+//@ func ExecSelect
+//@   loop 0 exhaustive every-kept-row-is-projected[C02]: current
+//@ func SelectExpr
+//@   loop 0 exhaustive every-select-item-is-evaluated[C02]: expr.Exprs
+
+// C14/C12: a query that is run with exec (which does not wait for its ASYNC calls nor run its post processors) is settled
+// by its caller: the caller adopts the post processors the run registered (after the run) and forwards the wait group;
+// only execAndPostProcess waits and post-processes itself. The callers of exec are these and no others.
+//@ callers-of (*Query).exec [C14,C12]: (*Query).exec (*Query).execAndPostProcess BuildFromAliasedTable SubqueryExpr ExistExpr
+//@ func BuildFromAliasedTable
+//@   at-call append:subquery.postProcessors assert adopted-after-the-run[C12,C14]: called(exec)
+//@   ensures wait-forwarded[C14]: err == nil && called(exec) ==> called(Add)
+//@ func SubqueryExpr
+//@   at-call append:subQuery.postProcessors assert adopted-after-the-run[C12,C14]: called(exec)
+//@   ensures wait-forwarded[C14]: err == nil && called(exec) ==> called(Add)
+//@ func ExistExpr
+//@   at-call append:q.postProcessors assert adopted-after-the-run[C12,C14]: called(exec)
+//@   ensures wait-forwarded[C14]: err == nil && called(exec) ==> called(Add)
